@@ -1,31 +1,169 @@
-"""C08 - signal-memory map and allocator never let live data overlap."""
-from .. import core, heapsim
+"""C08 - signal-memory map and allocator never let live data overlap.
+
+Three kinds of run, chosen by the case:
+  heap  alloc/free histories on kyupy.sim.Heap against RefHeap, invariants after every step        (allocator sentence)
+  map   real SimOps objects (WaveSim flavour: capacity vectors, minimum 4; LogicSim flavour: capacity 1) for seeded
+        circuits x {c_reuse} x {strip_forks}: static map checks + token executor                        (map sentence)
+  dyn   real WaveSim / WaveSimCuda propagation with the shadow-ownership monitor M2, F-poison of dead storage at every
+        level boundary and F-reuse batches; port results must equal the unpoisoned run and the run without re-use
+"""
+import os
+
+import numpy as np
+
+from .. import core, heapsim, tokens, wavegen, wsim
+from .. import gen as cgen
 
 PROP = 'C08'
 TIERS = {
-    'quick': {'runs': 6000, 'chunk': 100, 'wall_cap': 80},
-    'thorough': {'runs': 400000, 'chunk': 500, 'wall_cap': 800},
+    'quick': {'runs': 4200, 'chunk': 30, 'wall_cap': 80, 'min_budget': 30},
+    'thorough': {'runs': 400000, 'chunk': 100, 'wall_cap': 850, 'min_budget': 60},
 }
-RULE = 'placeholder'
-REAL_VS_STUB = {}
-ASSUMPTIONS = []
-EXPECTED_PROBES = ['chunk_reused', 'chunk_split', 'coalesced_both_sides', 'coalesced_one_side', 'tail_trim']
+RULE = ('run kinds: heap (seeded alloc/free histories, 3-800 steps, shapes uniform / burst-then-free / adversarial address-order frees; checked after every step), '
+        'map (seeded circuit x capacity vector x c_reuse x strip_forks -> real SimOps; static bounds/alias/pinned-slot checks + order-independent token execution), '
+        'dyn (real waveform propagation under M2 shadow ownership with dead-storage poison at every level boundary, 1-3 reuse batches), '
+        'big (thorough only: the shipped netlists b01.bench / b15_2ig.v.gz with random capacity vectors through the token executor). '
+        'non-trivial: heap history in which a freed chunk was handed out again or a free coalesced on both sides; map/dyn run with c_reuse in which some chunk was actually recycled for another signal; '
+        'distinct = distinct case digests')
+REAL_VS_STUB = {'real': ['kyupy.sim.Heap', 'kyupy.sim.SimOps.__init__ (ref-counts, level-wise allocation, aliasing, c_len)', 'dyn: kyupy.wave_sim kernels and host code'],
+                'stub': ['map/big: gate evaluation replaced by tokens (schedule and memory map are the real objects)', 'dyn on GPU path: SimCuda scheduler instead of the CUDA runtime']}
+ASSUMPTIONS = ['misuse of the allocator (double free, free of an unknown address) is outside the statement and not generated',
+               'no allocation policy is assumed (first-fit, best-fit, alignment would all pass); the high-water mark is compared with the running maximum of the tiled extent',
+               "liveness model used for poisoning is the weakest possible: a cell is dead iff no later op or capture of this schedule reads it"]
+EXPECTED_PROBES = ['chunk_reused', 'chunk_split', 'coalesced_both_sides', 'coalesced_one_side', 'tail_trim', 'token_chunk_recycled', 'alias_checked', 'dyn_chunk_recycled']
+
+TESTS = '/repo/tests'
 
 
 def gen(rng, tier, i):
-    return heapsim.gen_history(rng, tier)
+    r = rng.random()
+    if tier == 'thorough' and i % 4000 == 17:
+        return {'mode': 'big', 'net': rng.choice(['b01', 'b15', 'b15']), 'caps': {'default': 16, 'vec': [rng.choice([4, 8, 16, 32]) for _ in range(rng.randint(3, 50))]},
+                'flavour': rng.choice(['wave', 'logic']), 'branchforks': rng.random() < 0.5}
+    if r < 0.40: return heapsim.gen_history(rng, tier)
+    script = cgen.gen_script(rng, max_gates=rng.choice([8, 16, 30, 40]), max_in=6, max_ff=3)
+    if r < 0.72:
+        return {'mode': 'map', 'script': script, 'flavour': rng.choice(['wave', 'wave', 'logic']), 'caps': wavegen.gen_caps(rng, p_fault=0.7),
+                'knobs': [[a, b] for a in (False, True) for b in (False, True)], 'order_seed': rng.randrange(1 << 20),
+                'actrl': wavegen.gen_actrl(rng, p=0.2)}
+    sims = rng.randint(1, 4)
+    return {'mode': 'dyn', 'script': script, 'sims': sims, 'delays': wavegen.gen_delays(rng), 'caps': wavegen.gen_caps(rng, p_fault=0.6),
+            'batches': wavegen.gen_batches(rng, n_max=3, sims=sims, p_k=0.0), 'actrl': None,
+            'strip_forks': rng.random() < 0.5, 'cls': rng.choice(['cpu', 'cpu', 'gpu']), 'sched': wavegen.gen_order_sched(rng), 'block': wavegen.gen_block(rng),
+            'poison': {'vals': [rng.choice([0, 1, 2.5, 7, 11.25, 40, 100, float(wsim.TMIN), float(wsim.TMAX), float(wsim.TMAX_OVL), -3]) for _ in range(rng.randint(3, 11))]}}
+
+
+def make_simops(circuit, flavour, caps, c_reuse, strip_forks, actrl=None):
+    import kyupy.sim as ksim
+    nl = len(circuit.lines)
+    if flavour == 'logic':
+        return ksim.SimOps(circuit, c_reuse=c_reuse, strip_forks=strip_forks)
+    if caps is None: cc = 16
+    elif caps.get('vec') is None: cc = int(caps.get('default', 16))
+    else: cc = [int(caps['vec'][l % len(caps['vec'])]) for l in range(nl + 3)]
+    return ksim.SimOps(circuit, c_caps=cc, c_caps_min=4, a_ctrl=actrl, c_reuse=c_reuse, strip_forks=strip_forks)
+
+
+def exec_map(case, res):
+    built = cgen.build(case['script'])
+    for c_reuse, strip in case['knobs']:
+        so = make_simops(built.circuit, case['flavour'], case['caps'], c_reuse, strip)
+        res.log.add('map', c_reuse, strip, int(so.c_len), wsim.crc(np.asarray(so.c_locs)), wsim.crc(np.asarray(so.ops)))
+        meta = tokens.check_simops(so, built.circuit, [case['order_seed']], res, strip, label=f'c_reuse={c_reuse} strip_forks={strip}: ')
+        res.count('maps')
+        if c_reuse: res.fault('F-knob-reuse')
+        if strip: res.fault('F-knob-strip')
+        if res.violations: return
+    if res.probes.get('token_chunk_recycled'): res.nontrivial = True
+
+
+def exec_big(case, res):
+    import kyupy.bench, kyupy.verilog
+    from kyupy.techlib import SAED32
+    import contextlib, io
+    with contextlib.redirect_stdout(io.StringIO()):
+        if case['net'] == 'b01': c = kyupy.bench.load(os.path.join(TESTS, 'b01.bench'))
+        else:
+            c = kyupy.verilog.load(os.path.join(TESTS, 'b15_2ig.v.gz'), branchforks=case['branchforks'], tlib=SAED32)
+            c.resolve_tlib_cells(SAED32)
+    for c_reuse in (False, True):
+        for strip in (False, True):
+            so = make_simops(c, case['flavour'], case['caps'], c_reuse, strip)
+            tokens.check_simops(so, c, [1], res, strip, label=f"{case['net']} c_reuse={c_reuse} strip_forks={strip}: ")
+            res.count('big_maps')
+            res.log.add('big', int(so.c_len))
+            if res.violations: return
+    res.nontrivial = True
+    res.probe('big_netlist')
+
+
+def ports_equal(res, label, a, b, bno):
+    sa, sb = a['s'], b['s']
+    for rows in (slice(3, 8), slice(10, 11)):
+        if not np.array_equal(sa[rows].view(np.uint32), sb[rows].view(np.uint32)):
+            d = np.argwhere(sa[rows].view(np.uint32) != sb[rows].view(np.uint32))[0]
+            r0 = rows.start
+            res.violate('dyn-port-result-differs', f'{label} batch {bno}: s[{r0 + d[0]},{d[1]},{d[2]}] = {sb[r0 + d[0], d[1], d[2]]} vs {sa[r0 + d[0], d[1], d[2]]}')
+            return False
+    return True
+
+
+def exec_dyn(case, res):
+    built = cgen.build(case['script'])
+    base = {'cls': case['cls'], 'strip_forks': case['strip_forks'], 'sched': case['sched'], 'block': case['block']}
+    # reference: no re-use, no poison, no monitors
+    h0, ref = wsim.run_config(built, case, dict(base, c_reuse=False), core.Result(), monitors=())
+    # re-use on, M2 on, poison on
+    h1, out1 = wsim.run_config(built, case, dict(base, c_reuse=True, poison=case['poison']), res, monitors=('M2',))
+    res.fault('F-reuse-batches', len(case['batches']) - 1)
+    meta = h1.meta
+    starts = [int(meta.c_locs[l]) for l in range(meta.n_lines) if meta.root(l) == l]
+    if len(starts) != len(set(starts)): res.probe('dyn_chunk_recycled'); res.nontrivial = True
+    res.log.add('dyn', [wsim.crc(o['s'][3:8]) for o in out1])
+    if res.violations: return
+    for bno, (a, b) in enumerate(zip(ref, out1)):
+        if not ports_equal(res, 'memory re-use + poisoned dead storage vs no re-use', a, b, bno): return
+    # fault-free tier: re-use on, poison off -> must equal the poisoned run (cross-check of the liveness model)
+    h2, out2 = wsim.run_config(built, case, dict(base, c_reuse=True), res, monitors=('M2',))
+    res.count('faultfree_runs')
+    for bno, (a, b) in enumerate(zip(out2, out1)):
+        if not ports_equal(res, 'poisoned vs unpoisoned run (both with re-use)', a, b, bno): return
+    # no re-use but poison: dead storage of other lines must not matter either
+    h3, out3 = wsim.run_config(built, case, dict(base, c_reuse=False, poison=case['poison']), res, monitors=('M2',))
+    for bno, (a, b) in enumerate(zip(ref, out3)):
+        if not ports_equal(res, 'poisoned dead storage vs clean run (no re-use)', a, b, bno): return
+    # the input slots are still intact after results were read
+    mon = h1.mon
+    for i in range(len(meta.snodes)):
+        loc = int(meta.c_locs[meta.ppi_offset + i])
+        if loc >= 0 and (mon.tag_prod[loc:loc + 3] != wsim.PPI_BASE + i).any():
+            res.violate('dyn-input-clobbered', f'input slot {i} rows {loc}..{loc + 2} were overwritten during propagation')
+            return
 
 
 def execute(case):
     res = core.Result()
-    if case['mode'] == 'heap':
-        heapsim.execute_history(case, res)
+    m = case['mode']
+    if m == 'heap': heapsim.execute_history(case, res)
+    elif m == 'map': exec_map(case, res)
+    elif m == 'big': exec_big(case, res)
+    else: exec_dyn(case, res)
     return res
 
 
 def shrinks(case):
-    if case['mode'] == 'heap':
+    m = case['mode']
+    if m == 'heap':
         yield from heapsim.shrinks_history(case)
+    elif m == 'map':
+        if len(case['knobs']) > 1:
+            for j in range(len(case['knobs'])): yield dict(case, knobs=[case['knobs'][j]])
+        for s in cgen.shrink_script(case['script']): yield dict(case, script=s)
+        if case.get('caps'): yield dict(case, caps=None)
+    elif m == 'dyn':
+        yield from wavegen.shrink_wave_case(case)
+        if case['cls'] == 'gpu': yield dict(case, cls='cpu')
+        if case['strip_forks']: yield dict(case, strip_forks=False)
 
 
 def sample(case):
